@@ -178,6 +178,9 @@ func (p *parser) recover(errp *error) {
 
 // stopParse terminates parsing.
 func (p *parser) stopParse() {
+	if p.lex != nil {
+		p.lex.stop()
+	}
 	p.lex = nil
 }
 
